@@ -62,4 +62,19 @@ def plan(tier):
         data='argument value, the other thread\'s value (16 bit) and exception tag (8 bit): symbolic',
         bounds='two threads, one preemption: the other operation runs as a whole inside a window of start(promise)',
         outside='interleavings that split both operations (the claim itself is one exchange; future/promise two-sided interleavings are the E2 scenarios of C01/C02); thread-pool start (C11)'))
+    import itertools
+    vr = []
+    for k in (1, 2, 3):
+        for t in itertools.product(range(8), repeat=k):          # per child: suspends, resumed raw, throws
+            if not quick or k < 3 or sum(t) % 4 == 0:
+                v = [k - 1]
+                for x in t: v += [x & 1, (x >> 1) & 1, (x >> 2) & 1]
+                vr.append(v)
+    units.append(dict(
+        engine='e1', name='reuse_raw', tu='C04raw.cpp', entry='h_reuse_raw', unwind=8, vectors=vr, cbmc_extra=('--max-field-sensitivity-array-size', '300'),
+        concrete=[([0, 1, 1, 0], [5]), ([1, 1, 1, 0, 1, 0, 1], [6]), ([2, 0, 0, 0, 1, 1, 0, 1, 0, 1], [7])],
+        space='a parent coroutine awaiting K = 1..3 children one after another, all child frames in one reusable_storage; per child: completes synchronously / suspends on a foreign awaitable whose handle is '
+              'resumed by a raw handle.resume() from ordinary code (no coroutine queue: a foreign thread or event loop) or through coro_queue, returns / throws' + ('; K = 3: every 4th combination' if quick else '; full product'),
+        data='argument value (12 bit): symbolic', bounds='K <= 3 children, one suspension per child',
+        outside='resumption from a real second OS thread while the parent runs (the parent is suspended whenever a child is)'))
     return units
